@@ -116,18 +116,18 @@ def modelVerdict (arch : Arch) (ops : List Op) (words : Option (List Nat)) : Str
 def handle : List String → Option String
   | "c06" :: toks => do
     let (row, arch) ← archOf (← parseNat? (← kv toks "acc"))
-    let ops ← ((← kv toks "ops").splitOn ";").mapM parseOp
+    let ops ← (((← kv toks "ops").splitOn ";").filter (· ≠ "")).mapM parseOp
     let words ← parseNats (((← kv toks "words").splitOn ",").filter (· ≠ ""))
     some (modelVerdict arch ops (some words) ++ " | " ++ OpCheck.verdict row arch ops words)
   | "c06p" :: toks => do
     -- streams of compiled networks: the declared IFM extent may exceed what the kernel walks over
     let (row, arch) ← archOf (← parseNat? (← kv toks "acc"))
-    let ops ← ((← kv toks "ops").splitOn ";").mapM parseOp
+    let ops ← (((← kv toks "ops").splitOn ";").filter (· ≠ "")).mapM parseOp
     let words ← parseNats (((← kv toks "words").splitOn ",").filter (· ≠ ""))
     some (modelVerdict arch ops (some words) ++ " | " ++ OpCheck.verdict row arch ops words (strict := false))
   | "c06model" :: toks => do
     let (_, arch) ← archOf (← parseNat? (← kv toks "acc"))
-    let ops ← ((← kv toks "ops").splitOn ";").mapM parseOp
+    let ops ← (((← kv toks "ops").splitOn ";").filter (· ≠ "")).mapM parseOp
     some (modelVerdict arch ops none)
   | _ => none
 
